@@ -33,6 +33,12 @@ SPECS = [
     Spec('ixpeobssim.binning.base', 'xBinnedFileBase._weighted_average', 'weighted_average', [], bools=['invert_w2'],
          consts={'default': 0.}, abstract={'self.__data_dict': 'a', 'other.__data_dict': 'b'}, elementwise=True,
          note='one bin of the summation of two binned files: a, a_2 = value and weight of self; b, b_2 = value and weight of other'),
+    Spec('ixpeobssim.binning.polarization', 'xBinnedPolarizationCube.__iadd__', 'pcube_iadd', [], elementwise=True,
+         guards=['check_compat'], skip_calls=['recalculate_derived'],
+         method_calls={'_weighted_average': ('weighted_average', lambda a: ['self.%s' % a[1].strip("'"), 'self.%s' % a[2].strip("'"),
+                                                                          'other.%s' % a[1].strip("'"), 'other.%s' % a[2].strip("'"), 'false'])},
+         note='one energy bin of the sum of two polarization cubes: (E_MEAN, MU, COUNTS, W2, I, Q, U) after the update; the derived columns are '
+              'recomputed from these by calculate_stokes_errors / calculate_mdp99 / calculate_n_eff / calculate_polarization (generated above)'),
     Spec('ixpeobssim.binning.misc', 'xBinnedLightCurve.__iadd__', 'lc_iadd', [], elementwise=True, guards=['_check_iadd'],
          note='one time bin of the sum of two light curves: (COUNTS, EXPOSURE, ERROR) after the update'),
     Spec('ixpeobssim.evt.align', 'align_stokes_parameters', 'align_stokes_parameters', ['q', 'u', 'q0', 'u0']),
